@@ -37,6 +37,19 @@ const BLOCKS: &[&str] = &[
 /// long texts: plain ASCII filler with a few special pieces placed so that they straddle (or touch) byte offsets that are
 /// multiples of a power of two (block-wise scanning, SIMD chunks, buffer growth steps)
 fn gen_long_string(rng: &mut Rng) -> String {
+    // a plain run that ends a few bytes short of a multiple of a power of two, then a character of 2, 3 or 4 bytes (output that is
+    // batched through a fixed buffer has to flush before a character that no longer fits)
+    if rng.chance(1, 4) {
+        let b = *rng.pick(&[64usize, 128, 256, 512, 1024, 1024, 2048, 4096, 8192]);
+        let run = b * rng.range(1, 3) - rng.below(8);
+        let mut s: String = (0..run).map(|i| b"abcxyz 01"[i % 9] as char).collect();
+        for _ in 0..rng.range(1, 3) {
+            s.push(*rng.pick(&['\u{e9}', '\u{4e2d}', '\u{1f600}', '\u{10ffff}', '\u{7ff}']));
+        }
+        let tail = rng.below(40);
+        s.extend((0..tail).map(|i| b"tail 9"[i % 6] as char));
+        return s;
+    }
     let block = *rng.pick(&[8usize, 16, 32, 64, 256, 1024, 4096]);
     let blocks = rng.range(1, if block >= 1024 { 3 } else { 6 });
     let len = block * blocks + rng.below(4);
